@@ -194,7 +194,7 @@ fn expand_struct_assertion(value_expr: &TokenStream, pattern: &PatternStruct) ->
 
     quote_spanned! {span=>
         #[allow(unreachable_patterns)]
-        match &#value_expr {
+        match &(#value_expr) {
             #struct_path { #(#field_names: #field_bindings),* #rest_pattern } => {
                 #(#field_assertions)*
             },
@@ -402,7 +402,7 @@ fn expand_tuple_assertion(value_expr: &TokenStream, pattern: &PatternTuple) -> T
 
     quote! {
         #[allow(unreachable_patterns)]
-        match &#value_expr {
+        match &(#value_expr) {
             (#(#match_patterns),*) => {
                 #(#element_assertions)*
             },
@@ -485,7 +485,7 @@ fn expand_enum_assertion(value_expr: &TokenStream, pattern: &PatternEnum) -> Tok
 
         quote_spanned! {span=>
             #[allow(unreachable_patterns)]
-            match &#value_expr {
+            match &(#value_expr) {
                 #variant_path(#(#match_patterns),*) => {
                     #(#element_assertions)*
                 },
@@ -510,7 +510,7 @@ fn expand_range_assertion(value_expr: &TokenStream, pattern: &PatternRange) -> T
     );
 
     quote_spanned! {span=>
-        match &#value_expr {
+        match &(#value_expr) {
             #range => {},
             _ => {
                 #error_push
